@@ -796,25 +796,6 @@ fn split_assign(t: &str) -> (String, Option<String>) {
     }
 }
 
-fn temp_ops(ts: &[String]) -> Vec<Op> {
-    let mut v = vec![];
-    for t in ts {
-        let (n, val) = split_assign(t);
-        v.push(Op::As(n.clone(), Scope::Volatile, parse_val(&val.unwrap_or_default()), None));
-        v.push(Op::Ex(n, Scope::Volatile, true));
-    }
-    v
-}
-
-fn global_ops(ts: &[String]) -> Vec<Op> {
-    ts.iter()
-        .map(|t| {
-            let (n, val) = split_assign(t);
-            Op::As(n, Scope::Global, parse_val(&val.unwrap_or_default()), None)
-        })
-        .collect()
-}
-
 fn operand_ops(sc: Scope, t: &str) -> Vec<Op> {
     match split_assign(t) {
         (n, None) => vec![Op::Gn(n, sc)],
@@ -854,6 +835,30 @@ impl NaiveScript<'_> {
     }
     fn vline(&self, exp: &str) -> String {
         format!("v {} {}", exp, show_state(&self.n))
+    }
+    /// the assignments of a command's prefix, strictly in order: a value `$m` is expanded in the
+    /// state the earlier assignments of the same prefix left; true if one was refused
+    fn run_assigns(&mut self, ts: &[String], sc: Scope, export: bool) -> bool {
+        for t in ts {
+            let (n, val) = split_assign(t);
+            let val = val.unwrap_or_default();
+            let v = match val.strip_prefix('$') {
+                Some(m) => Value::scalar(match View::get(&self.n, m).and_then(|v| v.value) {
+                    Some(Value::Scalar(x)) => x,
+                    Some(Value::Array(xs)) => xs.join(" "),
+                    None => String::new(),
+                }),
+                None => parse_val(&val),
+            };
+            let mut ops = vec![Op::As(n.clone(), sc, v, None)];
+            if export {
+                ops.push(Op::Ex(n, sc, true));
+            }
+            if self.run_ops(&ops) {
+                return true;
+            }
+        }
+        false
     }
     /// the attribute loop of `typeset` for one operand
     fn typeset_field(&mut self, sc: Scope, opts: &[String], t: &str) {
@@ -943,11 +948,10 @@ impl NaiveScript<'_> {
                 v
             };
             let aborted = match st.kind.as_str() {
-                "A" | "S" => self.run_ops(&global_ops(&st.pre)),
+                "A" | "S" => self.run_assigns(&st.pre, Scope::Global, false),
                 "E" => {
-                    let mut ops = global_ops(&st.pre);
-                    ops.extend(with_export(&st.post, &|n| Op::Ex(n, Scope::Global, true)));
-                    self.run_ops(&ops)
+                    self.run_assigns(&st.pre, Scope::Global, false)
+                        || self.run_ops(&with_export(&st.post, &|n| Op::Ex(n, Scope::Global, true)))
                 }
                 "EX" => self.run_ops(&with_export(&st.pre, &|n| Op::Ex(n, Scope::Global, true))),
                 "R" => self.run_ops(&with_export(&st.pre, &|n| Op::Ro(n, Scope::Global, 1))),
@@ -997,9 +1001,8 @@ impl NaiveScript<'_> {
                 }
                 "P" | "N" | "X" => {
                     let exp = self.exp();
-                    let mut ops = vec![Op::PushV];
-                    ops.extend(temp_ops(&st.pre));
-                    if self.run_ops(&ops) {
+                    self.n.apply(&Op::PushV);
+                    if self.run_assigns(&st.pre, Scope::Volatile, true) {
                         true
                     } else {
                         if st.kind == "P" {
@@ -1021,9 +1024,8 @@ impl NaiveScript<'_> {
                         self.out.push("bad".into());
                         return 1;
                     };
-                    let mut ops = vec![Op::PushV];
-                    ops.extend(temp_ops(&st.pre[1..]));
-                    if self.run_ops(&ops) {
+                    self.n.apply(&Op::PushV);
+                    if self.run_assigns(&st.pre[1..], Scope::Volatile, true) {
                         true
                     } else if depth > 40 {
                         self.out.push("fuel".into());
@@ -1162,12 +1164,12 @@ fn script_case(body: &str) -> (String, String) {
 
 fn random_script(r: &mut Rng) -> String {
     let vals = ["1", "2", "T", "Q", ""];
-    let avals = ["1", "2", "T", "Q", "", "@a.b", "@", "@c"];
+    let avals = ["1", "2", "T", "Q", "", "@a.b", "@", "@c", "$x", "$y", "$z", "$x", "$y"];
     // assignments of the command language may be arrays; operands of built-ins are scalars
     let operand_assign = |r: &mut Rng| format!("{}={}", r.pick(&SCRIPT_NAMES), r.pick(&vals));
     let assign = |r: &mut Rng| format!("{}={}", r.pick(&SCRIPT_NAMES), r.pick(&avals));
     let temps = |r: &mut Rng| -> String {
-        let k = [1, 1, 1, 2, 0][r.below(5)];
+        let k = [1, 1, 2, 2, 3, 0][r.below(6)];
         (0..k).map(|_| assign(r)).collect::<Vec<_>>().join(" ")
     };
     let operand = |r: &mut Rng| {
@@ -1199,9 +1201,15 @@ fn random_script(r: &mut Rng) -> String {
         loop {
             let k = r.below(if in_fn { 34 } else { 29 });
             let s = match k {
-                0 | 1 | 2 => format!("A {}", assign(r)),
+                0 | 1 | 2 => {
+                    let k = [1, 1, 2, 3][r.below(4)];
+                    format!("A {}", (0..k).map(|_| assign(r)).collect::<Vec<_>>().join(" "))
+                }
                 3 | 4 => format!("P {}", temps(r)),
-                5 | 6 => format!("S {}", assign(r)),
+                5 | 6 => {
+                    let k = [1, 2, 2][r.below(3)];
+                    format!("S {}", (0..k).map(|_| assign(r)).collect::<Vec<_>>().join(" "))
+                }
                 7 => format!("E {} -- {}", temps(r), operand(r)),
                 8 | 9 | 10 => match callee {
                     Some(f) => format!(
